@@ -17,26 +17,58 @@ theorem timeout_no_overflow (t : Nat) (h : t ≤ 255) :
     readCardTimeoutOf t = t + 2 ∧ 2 ≤ readCardTimeoutOf t ∧ readCardTimeoutOf t ≤ 257 ∧ readCardTimeoutOf t < 2 ^ 64 := by
   unfold readCardTimeoutOf; omega
 
-/-- one `stream.next()` consumes no time by itself. -/
-theorem next_takes_no_time (d : SeqDesc) (w : World) (c : ConnSt) (st : SeqSt) :
-    (seqNext d w c st).2.1.now = w.now := seqNext_now d w c st
+/-- **every `stream.next()` is over by its deadline**, whatever the terminal does and however slowly it talks: the
+clock never runs backwards and the call (begun before the deadline) does not outlast it. -/
+theorem next_within_deadline (d : SeqDesc) (dl : Nat) (w : World) (c : ConnSt) (st : SeqSt) (h : w.now ≤ dl) :
+    w.now ≤ (seqNext d dl w c st).2.1.now ∧ (seqNext d dl w c st).2.1.now ≤ dl :=
+  ⟨(seqNext_time d dl w c st).ge, (seqNext_time d dl w c st).le h⟩
 
-/-- the handshake (TCP connect, registration, system info) is bounded by `TIMEOUT` wherever the
-terminal falls silent in it. -/
+/-- against a terminal that answers at once or not at all, one `stream.next()` consumes no time by itself. -/
+theorem next_takes_no_time (d : SeqDesc) (dl : Nat) (w : World) (c : ConnSt) (st : SeqSt) (hg : w.gap = 0) :
+    (seqNext d dl w c st).2.1.now = w.now := seqNext_now d dl w c st hg
+
+/-- the handshake (TCP connect, registration, system info) is bounded by `TIMEOUT` wherever the terminal falls
+silent in it and however slowly it talks; against an instant-or-silent terminal it takes no time or exactly `TIMEOUT`. -/
 theorem connect_bounded (cfg : Cfg) (w : World) :
-    (connect cfg w).1.now = w.now ∨ (connect cfg w).1.now = w.now + TIMEOUT := connect_now cfg w
+    w.now ≤ (connect cfg w).1.now ∧ (connect cfg w).1.now ≤ w.now + TIMEOUT ∧
+    (w.gap = 0 → (connect cfg w).1.now = w.now ∨ (connect cfg w).1.now = w.now + TIMEOUT) :=
+  (connect_time cfg w).2
 
-/-- an attempt on a live connection ends at most one packet time-out after it began. -/
+/-- an attempt on a live connection: at most one packet time-out per packet it delivers; against an instant-or-silent
+terminal it ends at most ONE packet time-out after it began. -/
 theorem attempt_bounded {σ ρ : Type} (d : SeqDesc) (timeout : Nat) (step : σ → Item → Step σ ρ)
     (fuel : Nat) (w : World) (c : ConnSt) (st : SeqSt) (s : σ) :
-    (runItems d timeout step fuel w c st s).2.1.now ≤ w.now + timeout := (runItems_now d timeout step fuel w c st s).2
+    (runItems d timeout step fuel w c st s).2.1.now ≤ w.now + fuel * timeout ∧
+    (w.gap = 0 → (runItems d timeout step fuel w c st s).2.1.now ≤ w.now + timeout) :=
+  (runItems_time d timeout step fuel w c st s).2.2
 
-/-- **Every exchange with retries returns within `ATTEMPTS × (THROTTLE + TIMEOUT + timeout)`** virtual
-seconds, for every terminal script, fault table, connection behaviour and caller loop. -/
+/-- **Every exchange with retries returns within `ATTEMPTS × (THROTTLE + TIMEOUT + timeout)`** virtual seconds, for
+every reply script, fault table (silence at any position included), connection behaviour and caller loop, against a
+terminal that answers at once or falls silent. -/
 theorem exchange_bounded {σ ρ : Type} (cfg : Cfg) (seqName : String) (cmd : Bytes) (timeout : Nat)
-    (step : σ → Item → Step σ ρ) (w : World) (s : σ) :
+    (step : σ → Item → Step σ ρ) (w : World) (s : σ) (hg : w.gap = 0) :
     (runOp cfg seqName cmd timeout step w s).2.now ≤ w.now + ATTEMPTS * (THROTTLE + TIMEOUT + timeout) :=
-  runOp_now cfg seqName cmd timeout step w s
+  runOp_now cfg seqName cmd timeout step w s hg
+
+/-- the same against a terminal of any pace (a pause before every packet): finite, growing with the number of packets
+one attempt may deliver. -/
+theorem exchange_bounded_slow {σ ρ : Type} (cfg : Cfg) (seqName : String) (cmd : Bytes) (timeout : Nat)
+    (step : σ → Item → Step σ ρ) (w : World) (s : σ) :
+    (runOp cfg seqName cmd timeout step w s).2.now ≤ w.now + ATTEMPTS * (THROTTLE + TIMEOUT + ITEM_FUEL * timeout) :=
+  runOp_now_slow cfg seqName cmd timeout step w s
+
+/-- budget of one exchange against a terminal of pace `g`. -/
+def paceBudget (g timeout : Nat) : Nat := ATTEMPTS * attemptBudget (if g = 0 then timeout else ITEM_FUEL * timeout)
+
+theorem runOp_paced {σ ρ : Type} (cfg : Cfg) (seqName : String) (cmd : Bytes) (timeout : Nat)
+    (step : σ → Item → Step σ ρ) (w : World) (s : σ) :
+    (runOp cfg seqName cmd timeout step w s).2.gap = w.gap ∧
+    (runOp cfg seqName cmd timeout step w s).2.now ≤ w.now + paceBudget w.gap timeout := by
+  refine ⟨runOp_gap cfg seqName cmd timeout step w s, ?_⟩
+  unfold paceBudget
+  by_cases hg : w.gap = 0
+  · rw [if_pos hg]; exact runOp_now cfg seqName cmd timeout step w s hg
+  · rw [if_neg hg]; exact runOp_now_slow cfg seqName cmd timeout step w s
 
 def constOf (k : String) : Option String := (Generated.consts.find? (·.1 == k)).map (·.2)
 
@@ -52,92 +84,110 @@ theorem retry_constants_match_source :
 /-- the budgets with the constants of the source: 20 × (2 + 60 + 60) = 2440 s for ordinary exchanges. -/
 theorem budget_default : ATTEMPTS * (THROTTLE + TIMEOUT + TIMEOUT) = 2440 := by decide
 
-/-- **read_card** for every `read_card_timeout` 0..255: at most 20 × (2 + 60 + t + 2) ≤ 6380 s. -/
-theorem readCard_bounded (cfg : Cfg) (w : World) (h : cfg.readCardTimeout ≤ 255) :
-    (readCard cfg w).2.now ≤ w.now + 6380 := by
+theorem paceBudget_zero : paceBudget 0 TIMEOUT = 2440 := by decide
+
+/-! ### every public operation: composition of bounded exchanges
+
+`…_paced` : for a terminal of ANY pace the operation leaves the pace alone and returns within so many exchange budgets
+`paceBudget w.gap …`; `…_bounded` : the numbers for a terminal that answers at once or falls silent (`gap = 0`). -/
+
+theorem readCard_paced (cfg : Cfg) (w : World) :
+    (readCard cfg w).2.gap = w.gap ∧
+    (readCard cfg w).2.now ≤ w.now + paceBudget w.gap (readCardTimeoutOf cfg.readCardTimeout) := by
   unfold readCard
-  have hb := runOp_now cfg "sequences::ReadCard" (readCardCmd cfg) (readCardTimeoutOf cfg.readCardTimeout)
+  have hb := runOp_paced cfg "sequences::ReadCard" (readCardCmd cfg) (readCardTimeoutOf cfg.readCardTimeout)
     (readCardStep (findEnumG "sequences::ReadCardResponse")) w none
   generalize runOp cfg "sequences::ReadCard" (readCardCmd cfg) (readCardTimeoutOf cfg.readCardTimeout)
     (readCardStep (findEnumG "sequences::ReadCardResponse")) w none = q at hb ⊢
   obtain ⟨st, w'⟩ := q
-  have : ATTEMPTS * attemptBudget (readCardTimeoutOf cfg.readCardTimeout) ≤ 6380 := by
-    simp only [ATTEMPTS, attemptBudget, THROTTLE, TIMEOUT, readCardTimeoutOf]; omega
   simp only at hb
   cases st with
-  | ret r => simp only; omega
-  | cont s => cases s <;> (simp only; omega)
+  | ret r => exact hb
+  | cont s => cases s <;> exact hb
 
-/-- **begin** : refused at once, or one reservation exchange. -/
-theorem begin_bounded (cfg : Cfg) (cl : Client) (token : List Nat) (w : World) :
-    (beginTx cfg cl token w).2.2.now ≤ w.now + 2440 := by
+/-- **read_card** for every `read_card_timeout` 0..255: at most 20 × (2 + 60 + t + 2) ≤ 6380 s. -/
+theorem readCard_bounded (cfg : Cfg) (w : World) (h : cfg.readCardTimeout ≤ 255) (hg : w.gap = 0) :
+    (readCard cfg w).2.now ≤ w.now + 6380 := by
+  have hb := (readCard_paced cfg w).2
+  rw [hg] at hb
+  have : paceBudget 0 (readCardTimeoutOf cfg.readCardTimeout) ≤ 6380 := by
+    simp only [paceBudget, if_pos, ATTEMPTS, attemptBudget, THROTTLE, TIMEOUT, readCardTimeoutOf]; omega
+  omega
+
+theorem begin_paced (cfg : Cfg) (cl : Client) (token : List Nat) (w : World) :
+    (beginTx cfg cl token w).2.2.gap = w.gap ∧ (beginTx cfg cl token w).2.2.now ≤ w.now + paceBudget w.gap TIMEOUT := by
   unfold beginTx
   split
-  · simp
+  · exact ⟨rfl, Nat.le_add_right _ _⟩
   · split
-    · simp
-    · have hb := runOp_now cfg "sequences::Reservation" (reservationCmd cfg token) TIMEOUT
+    · exact ⟨rfl, Nat.le_add_right _ _⟩
+    · have hb := runOp_paced cfg "sequences::Reservation" (reservationCmd cfg token) TIMEOUT
         (beginStep (findEnumG "sequences::AuthorizationResponse")) w none
       generalize runOp cfg "sequences::Reservation" (reservationCmd cfg token) TIMEOUT
         (beginStep (findEnumG "sequences::AuthorizationResponse")) w none = q at hb ⊢
       obtain ⟨st, w'⟩ := q
-      have : ATTEMPTS * attemptBudget TIMEOUT = 2440 := by decide
       simp only at hb
       cases st with
-      | ret r => simp only [beginFold]; omega
-      | cont s => cases s <;> (simp only [beginFold]; omega)
+      | ret r => simp only [beginFold]; exact hb
+      | cont s => cases s <;> (simp only [beginFold]; exact hb)
 
-/-! ### every public operation: composition of bounded exchanges -/
+/-- **begin** : refused at once, or one reservation exchange. -/
+theorem begin_bounded (cfg : Cfg) (cl : Client) (token : List Nat) (w : World) (hg : w.gap = 0) :
+    (beginTx cfg cl token w).2.2.now ≤ w.now + 2440 := by
+  have hb := (begin_paced cfg cl token w).2
+  rw [hg, paceBudget_zero] at hb; exact hb
 
-theorem runOp_B {σ ρ : Type} (cfg : Cfg) (seqName : String) (cmd : Bytes) (step : σ → Item → Step σ ρ) (w : World) (s : σ) :
-    (runOp cfg seqName cmd TIMEOUT step w s).2.now ≤ w.now + 2440 := by
-  have := runOp_now cfg seqName cmd TIMEOUT step w s
-  have hb : ATTEMPTS * attemptBudget TIMEOUT = 2440 := by decide
-  omega
-
-theorem simpleOp_bounded (cfg : Cfg) (seqName : String) (cmd : Bytes) (w : World)
-    (onOk : EnumDef → Nat → Val → Step Unit (CRes Unit)) : (simpleOp cfg seqName cmd w onOk).2.now ≤ w.now + 2440 := by
+theorem simpleOp_paced (cfg : Cfg) (seqName : String) (cmd : Bytes) (w : World)
+    (onOk : EnumDef → Nat → Val → Step Unit (CRes Unit)) :
+    (simpleOp cfg seqName cmd w onOk).2.gap = w.gap ∧ (simpleOp cfg seqName cmd w onOk).2.now ≤ w.now + paceBudget w.gap TIMEOUT := by
   unfold simpleOp
-  have hb := runOp_B cfg seqName cmd (liftStep (onOk (seqDesc seqName cmd).enum)) w ()
+  have hb := runOp_paced cfg seqName cmd TIMEOUT (liftStep (onOk (seqDesc seqName cmd).enum)) w ()
   generalize runOp cfg seqName cmd TIMEOUT (liftStep (onOk (seqDesc seqName cmd).enum)) w () = q at hb ⊢
   obtain ⟨st, w'⟩ := q
   cases st <;> exact hb
 
-theorem getSystemInfo_bounded (cfg : Cfg) (w : World) : (getSystemInfo cfg w).2.now ≤ w.now + 2440 := by
+theorem getSystemInfo_paced (cfg : Cfg) (w : World) :
+    (getSystemInfo cfg w).2.gap = w.gap ∧ (getSystemInfo cfg w).2.now ≤ w.now + paceBudget w.gap TIMEOUT := by
   unfold getSystemInfo
-  have hb := runOp_B cfg "feig::sequences::GetSystemInfo" sysInfoCmd (sysInfoStep (findEnumG "feig::sequences::GetSystemInfoResponse")) w ()
+  have hb := runOp_paced cfg "feig::sequences::GetSystemInfo" sysInfoCmd TIMEOUT (sysInfoStep (findEnumG "feig::sequences::GetSystemInfoResponse")) w ()
   generalize runOp cfg "feig::sequences::GetSystemInfo" sysInfoCmd TIMEOUT (sysInfoStep (findEnumG "feig::sequences::GetSystemInfoResponse")) w () = q at hb ⊢
   obtain ⟨st, w'⟩ := q
   cases st <;> exact hb
 
-theorem setTerminalId_bounded (cfg : Cfg) (w : World) : (setTerminalId cfg w).2.now ≤ w.now + 4880 := by
+theorem setTerminalId_paced (cfg : Cfg) (w : World) :
+    (setTerminalId cfg w).2.gap = w.gap ∧ (setTerminalId cfg w).2.now ≤ w.now + 2 * paceBudget w.gap TIMEOUT := by
   unfold setTerminalId
-  have h1 := getSystemInfo_bounded cfg w
+  have h1 := getSystemInfo_paced cfg w
   generalize getSystemInfo cfg w = q at h1 ⊢
   obtain ⟨r, w1⟩ := q
+  simp only at h1
   cases r with
-  | error e => simp only; simp only at h1; omega
+  | error e => simp only; exact ⟨h1.1, by omega⟩
   | ok info =>
-    simp only at h1 ⊢
+    simp only
     split
-    · simp only; omega
+    · simp only; exact ⟨h1.1, by omega⟩
     · split
-      · simp only; omega
-      · have := simpleOp_bounded cfg "sequences::SetTerminalId"
+      · simp only; exact ⟨h1.1, by omega⟩
+      · have h2 := simpleOp_paced cfg "sequences::SetTerminalId"
           (encodeReq "packets::SetTerminalId" (.struct [.num cfg.password, .some (.num (digitsVal cfg.terminalId))])) w1 setTidDecide
-        omega
+        rw [h1.1] at h2
+        exact ⟨h2.1, by omega⟩
 
-theorem initialize_bounded (cfg : Cfg) (w : World) : (initializeT cfg w).2.now ≤ w.now + 2440 := by
-  unfold initializeT; exact simpleOp_bounded _ _ _ _ _
+theorem initialize_paced (cfg : Cfg) (w : World) :
+    (initializeT cfg w).2.gap = w.gap ∧ (initializeT cfg w).2.now ≤ w.now + paceBudget w.gap TIMEOUT := by
+  unfold initializeT; exact simpleOp_paced _ _ _ _ _
 
-theorem cancelByReceipt_bounded (cfg : Cfg) (r : Nat) (w : World) : (cancelByReceipt cfg r w).2.now ≤ w.now + 2440 := by
-  unfold cancelByReceipt; exact simpleOp_bounded _ _ _ _ _
+theorem cancelByReceipt_paced (cfg : Cfg) (r : Nat) (w : World) :
+    (cancelByReceipt cfg r w).2.gap = w.gap ∧ (cancelByReceipt cfg r w).2.now ≤ w.now + paceBudget w.gap TIMEOUT := by
+  unfold cancelByReceipt; exact simpleOp_paced _ _ _ _ _
 
 /-- the pending query reports at most one receipt, within one exchange budget. -/
-theorem getPending_bounded (cfg : Cfg) (w : World) :
-    (getPending cfg w).2.now ≤ w.now + 2440 ∧ ∀ l, (getPending cfg w).1 = .ok l → l.length ≤ 1 := by
+theorem getPending_paced (cfg : Cfg) (w : World) :
+    ((getPending cfg w).2.gap = w.gap ∧ (getPending cfg w).2.now ≤ w.now + paceBudget w.gap TIMEOUT) ∧
+    ∀ l, (getPending cfg w).1 = .ok l → l.length ≤ 1 := by
   unfold getPending
-  have hb := runOp_B cfg "sequences::PartialReversal" pendingCmd (pendingStep (findEnumG "sequences::PartialReversalResponse")) w ()
+  have hb := runOp_paced cfg "sequences::PartialReversal" pendingCmd TIMEOUT (pendingStep (findEnumG "sequences::PartialReversalResponse")) w ()
   have hres := runOp_ret_from_step cfg "sequences::PartialReversal" pendingCmd TIMEOUT
     (pendingStep (findEnumG "sequences::PartialReversalResponse")) w ()
     (fun r => ∀ l, r = .ok l → l.length ≤ 1)
@@ -158,112 +208,162 @@ theorem getPending_bounded (cfg : Cfg) (w : World) :
   | ret r => exact ⟨hb, hres r rfl⟩
   | cont u => exact ⟨hb, by intro l hl; cases hl⟩
 
-theorem cancelAll_bounded (cfg : Cfg) : ∀ (rs : List Nat) (w : World), (cancelAll cfg rs w).2.now ≤ w.now + rs.length * 2440 := by
+theorem cancelAll_paced (cfg : Cfg) : ∀ (rs : List Nat) (w : World),
+    (cancelAll cfg rs w).2.gap = w.gap ∧ (cancelAll cfg rs w).2.now ≤ w.now + rs.length * paceBudget w.gap TIMEOUT := by
   intro rs
   induction rs with
   | nil => intro w; simp [cancelAll]
   | cons r rs ih =>
     intro w
     simp only [cancelAll]
-    have h1 := cancelByReceipt_bounded cfg r w
+    have h1 := cancelByReceipt_paced cfg r w
     generalize cancelByReceipt cfg r w = q at h1 ⊢
     obtain ⟨res, w1⟩ := q
+    simp only at h1
+    have hmul : (rs.length + 1) * paceBudget w.gap TIMEOUT = rs.length * paceBudget w.gap TIMEOUT + paceBudget w.gap TIMEOUT := Nat.succ_mul _ _
     cases res with
-    | error e => simp only [List.length_cons] at h1 ⊢; omega
+    | error e => simp only [List.length_cons]; exact ⟨h1.1, by omega⟩
     | ok u =>
-      simp only [List.length_cons] at h1 ⊢
-      have := ih w1
-      omega
+      simp only [List.length_cons]
+      have h2 := ih w1
+      rw [h1.1] at h2
+      exact ⟨h2.1, by omega⟩
 
 /-- **end_of_day** (pending query, reversal of at most one receipt, end-of-day): three exchange budgets. -/
-theorem endOfDay_bounded (cfg : Cfg) (cl : Client) (w : World) : (endOfDay cfg cl w).2.2.now ≤ w.now + 7320 := by
+theorem endOfDay_paced (cfg : Cfg) (cl : Client) (w : World) :
+    (endOfDay cfg cl w).2.2.gap = w.gap ∧ (endOfDay cfg cl w).2.2.now ≤ w.now + 3 * paceBudget w.gap TIMEOUT := by
   unfold endOfDay
-  obtain ⟨h1, hlen⟩ := getPending_bounded cfg w
+  obtain ⟨h1, hlen⟩ := getPending_paced cfg w
   generalize getPending cfg w = q at h1 hlen ⊢
   obtain ⟨res, w1⟩ := q
+  simp only at h1
   cases res with
-  | error e => simp only at h1 ⊢; omega
+  | error e => simp only; exact ⟨h1.1, by omega⟩
   | ok pend =>
-    simp only at h1 ⊢
+    simp only
     have hl := hlen pend rfl
-    have h2 := cancelAll_bounded cfg pend w1
+    have h2 := cancelAll_paced cfg pend w1
+    rw [h1.1] at h2
     generalize cancelAll cfg pend w1 = q2 at h2 ⊢
     obtain ⟨res2, w2⟩ := q2
-    have hmul : pend.length * 2440 ≤ 2440 := by omega
+    simp only at h2
+    have hmul : pend.length * paceBudget w.gap TIMEOUT ≤ paceBudget w.gap TIMEOUT := by
+      cases hp : pend.length with
+      | zero => simp
+      | succ k => have : k = 0 := by omega
+                  subst this; simp
     cases res2 with
-    | error e => simp only at h2 ⊢; omega
+    | error e => simp only; exact ⟨h2.1, by omega⟩
     | ok u =>
-      simp only at h2 ⊢
-      have h3 := simpleOp_bounded cfg "sequences::EndOfDay" (encodeReq "packets::EndOfDay" (.struct [.num cfg.password])) w2 eodDecide
+      simp only
+      have h3 := simpleOp_paced cfg "sequences::EndOfDay" (encodeReq "packets::EndOfDay" (.struct [.num cfg.password])) w2 eodDecide
+      rw [h2.1] at h3
       generalize simpleOp cfg "sequences::EndOfDay" (encodeReq "packets::EndOfDay" (.struct [.num cfg.password])) w2 eodDecide = q3 at h3 ⊢
       obtain ⟨r3, w3⟩ := q3
       simp only at h3 ⊢
-      omega
+      exact ⟨h3.1, by omega⟩
 
 /-- **configure** (`Feig::new` runs it): system info, set terminal id, initialisation, end-of-day. -/
-theorem configure_bounded (cfg : Cfg) (cl : Client) (w : World) : (configure cfg cl w).2.2.now ≤ w.now + 14640 := by
+theorem configure_paced (cfg : Cfg) (cl : Client) (w : World) :
+    (configure cfg cl w).2.2.gap = w.gap ∧ (configure cfg cl w).2.2.now ≤ w.now + 6 * paceBudget w.gap TIMEOUT := by
   unfold configure
-  have h1 := setTerminalId_bounded cfg w
+  have h1 := setTerminalId_paced cfg w
   generalize setTerminalId cfg w = q at h1 ⊢
   obtain ⟨r1, w1⟩ := q
+  simp only at h1
   cases r1 with
-  | error e => simp only at h1 ⊢; omega
+  | error e => simp only; exact ⟨h1.1, by omega⟩
   | ok u =>
-    simp only at h1 ⊢
-    have h2 := initialize_bounded cfg w1
+    simp only
+    have h2 := initialize_paced cfg w1
+    rw [h1.1] at h2
     generalize initializeT cfg w1 = q2 at h2 ⊢
     obtain ⟨r2, w2⟩ := q2
+    simp only at h2
     cases r2 with
-    | error e => simp only at h2 ⊢; omega
+    | error e => simp only; exact ⟨h2.1, by omega⟩
     | ok u2 =>
-      simp only at h2 ⊢
-      have := endOfDay_bounded cfg cl w2
-      omega
+      simp only
+      have h3 := endOfDay_paced cfg cl w2
+      rw [h2.1] at h3
+      exact ⟨h3.1, by omega⟩
 
-theorem idleCleanup_bounded (cfg : Cfg) (cl : Client) (w : World) : (idleCleanup cfg cl w).2.2.now ≤ w.now + 7320 := by
+theorem idleCleanup_paced (cfg : Cfg) (cl : Client) (w : World) :
+    (idleCleanup cfg cl w).2.2.gap = w.gap ∧ (idleCleanup cfg cl w).2.2.now ≤ w.now + 3 * paceBudget w.gap TIMEOUT := by
   unfold idleCleanup
   split
-  · exact endOfDay_bounded cfg cl w
-  · simp
+  · exact endOfDay_paced cfg cl w
+  · exact ⟨rfl, Nat.le_add_right _ _⟩
 
 /-- **cancel**: refused at once, or the reversal exchange plus the idle clean-up. -/
-theorem cancel_bounded (cfg : Cfg) (cl : Client) (token : List Nat) (w : World) :
-    (cancelTx cfg cl token w).2.2.now ≤ w.now + 9760 := by
+theorem cancel_paced (cfg : Cfg) (cl : Client) (token : List Nat) (w : World) :
+    (cancelTx cfg cl token w).2.2.gap = w.gap ∧ (cancelTx cfg cl token w).2.2.now ≤ w.now + 4 * paceBudget w.gap TIMEOUT := by
   unfold cancelTx
   split
-  · simp
+  · exact ⟨rfl, Nat.le_add_right _ _⟩
   · rename_i a receipt _
-    have h1 := cancelByReceipt_bounded cfg receipt w
+    have h1 := cancelByReceipt_paced cfg receipt w
     generalize cancelByReceipt cfg receipt w = q at h1 ⊢
     obtain ⟨r, w1⟩ := q
+    simp only at h1
     cases r with
-    | error e => simp only [cancelFold] at h1 ⊢; omega
+    | error e => simp only [cancelFold]; exact ⟨h1.1, by omega⟩
     | ok u =>
-      simp only [cancelFold] at h1 ⊢
-      have := idleCleanup_bounded cfg { txs := cl.txs.filter (·.1 ≠ token) } w1
-      omega
+      simp only [cancelFold]
+      have h2 := idleCleanup_paced cfg { txs := cl.txs.filter (·.1 ≠ token) } w1
+      rw [h1.1] at h2
+      exact ⟨h2.1, by omega⟩
 
 /-- **commit**: refused at once, or the partial-reversal exchange plus the idle clean-up. -/
-theorem commit_bounded (cfg : Cfg) (cl : Client) (token : List Nat) (final : Nat) (w : World) :
-    (commitTx cfg cl token final w).2.2.now ≤ w.now + 9760 := by
+theorem commit_paced (cfg : Cfg) (cl : Client) (token : List Nat) (final : Nat) (w : World) :
+    (commitTx cfg cl token final w).2.2.gap = w.gap ∧ (commitTx cfg cl token final w).2.2.now ≤ w.now + 4 * paceBudget w.gap TIMEOUT := by
   unfold commitTx
   split
-  · simp
+  · exact ⟨rfl, Nat.le_add_right _ _⟩
   · rename_i a receipt _
-    have h1 := runOp_B cfg "sequences::PartialReversal" (commitCmd cfg token receipt final)
+    have h1 := runOp_paced cfg "sequences::PartialReversal" (commitCmd cfg token receipt final) TIMEOUT
       (commitStep (findEnumG "sequences::PartialReversalResponse")) w none
     generalize runOp cfg "sequences::PartialReversal" (commitCmd cfg token receipt final) TIMEOUT
       (commitStep (findEnumG "sequences::PartialReversalResponse")) w none = q at h1 ⊢
     obtain ⟨st, w1⟩ := q
+    simp only at h1
     cases st with
-    | ret r => simp only [commitFold] at h1 ⊢; omega
+    | ret r => simp only [commitFold]; exact ⟨h1.1, by omega⟩
     | cont s =>
-      simp only [commitFold] at h1 ⊢
-      have h2 := idleCleanup_bounded cfg { txs := cl.txs.filter (·.1 ≠ token) } w1
+      simp only [commitFold]
+      have h2 := idleCleanup_paced cfg { txs := cl.txs.filter (·.1 ≠ token) } w1
+      rw [h1.1] at h2
       generalize idleCleanup cfg { txs := cl.txs.filter (·.1 ≠ token) } w1 = q2 at h2 ⊢
       obtain ⟨r2, cl2, w2⟩ := q2
+      simp only at h2
       cases r2 with
-      | error e => simp only at h2 ⊢; omega
-      | ok u => cases s <;> (simp only at h2 ⊢; omega)
+      | error e => simp only; exact ⟨h2.1, by omega⟩
+      | ok u => cases s <;> (simp only; exact ⟨h2.1, by omega⟩)
+
+/-! the numbers against a terminal that answers at once or falls silent (`gap = 0`): one exchange = 2440 s -/
+
+theorem setTerminalId_bounded (cfg : Cfg) (w : World) (hg : w.gap = 0) : (setTerminalId cfg w).2.now ≤ w.now + 4880 := by
+  have h := (setTerminalId_paced cfg w).2; rw [hg, paceBudget_zero] at h; omega
+theorem initialize_bounded (cfg : Cfg) (w : World) (hg : w.gap = 0) : (initializeT cfg w).2.now ≤ w.now + 2440 := by
+  have h := (initialize_paced cfg w).2; rw [hg, paceBudget_zero] at h; omega
+theorem getSystemInfo_bounded (cfg : Cfg) (w : World) (hg : w.gap = 0) : (getSystemInfo cfg w).2.now ≤ w.now + 2440 := by
+  have h := (getSystemInfo_paced cfg w).2; rw [hg, paceBudget_zero] at h; omega
+theorem cancelByReceipt_bounded (cfg : Cfg) (r : Nat) (w : World) (hg : w.gap = 0) : (cancelByReceipt cfg r w).2.now ≤ w.now + 2440 := by
+  have h := (cancelByReceipt_paced cfg r w).2; rw [hg, paceBudget_zero] at h; omega
+theorem getPending_bounded (cfg : Cfg) (w : World) (hg : w.gap = 0) :
+    (getPending cfg w).2.now ≤ w.now + 2440 ∧ ∀ l, (getPending cfg w).1 = .ok l → l.length ≤ 1 := by
+  have h := getPending_paced cfg w; rw [hg, paceBudget_zero] at h; exact ⟨h.1.2, h.2⟩
+theorem endOfDay_bounded (cfg : Cfg) (cl : Client) (w : World) (hg : w.gap = 0) : (endOfDay cfg cl w).2.2.now ≤ w.now + 7320 := by
+  have h := (endOfDay_paced cfg cl w).2; rw [hg, paceBudget_zero] at h; omega
+theorem configure_bounded (cfg : Cfg) (cl : Client) (w : World) (hg : w.gap = 0) : (configure cfg cl w).2.2.now ≤ w.now + 14640 := by
+  have h := (configure_paced cfg cl w).2; rw [hg, paceBudget_zero] at h; omega
+theorem idleCleanup_bounded (cfg : Cfg) (cl : Client) (w : World) (hg : w.gap = 0) : (idleCleanup cfg cl w).2.2.now ≤ w.now + 7320 := by
+  have h := (idleCleanup_paced cfg cl w).2; rw [hg, paceBudget_zero] at h; omega
+theorem cancel_bounded (cfg : Cfg) (cl : Client) (token : List Nat) (w : World) (hg : w.gap = 0) :
+    (cancelTx cfg cl token w).2.2.now ≤ w.now + 9760 := by
+  have h := (cancel_paced cfg cl token w).2; rw [hg, paceBudget_zero] at h; omega
+theorem commit_bounded (cfg : Cfg) (cl : Client) (token : List Nat) (final : Nat) (w : World) (hg : w.gap = 0) :
+    (commitTx cfg cl token final w).2.2.now ≤ w.now + 9760 := by
+  have h := (commit_paced cfg cl token final w).2; rw [hg, paceBudget_zero] at h; omega
 
 end Zvt.C10
